@@ -36,6 +36,22 @@ import (
 	"sync"
 	"time"
 
+	"github.com/q191201771/lal/pkg/aac"
+	"github.com/q191201771/lal/pkg/avc"
+	"github.com/q191201771/lal/pkg/base"
+	"github.com/q191201771/lal/pkg/gb28181"
+	"github.com/q191201771/lal/pkg/hevc"
+	"github.com/q191201771/lal/pkg/hls"
+	"github.com/q191201771/lal/pkg/httpflv"
+	"github.com/q191201771/lal/pkg/httpts"
+	"github.com/q191201771/lal/pkg/logic"
+	"github.com/q191201771/lal/pkg/mpegts"
+	"github.com/q191201771/lal/pkg/remux"
+	"github.com/q191201771/lal/pkg/rtmp"
+	"github.com/q191201771/lal/pkg/rtprtcp"
+	"github.com/q191201771/lal/pkg/rtsp"
+	"github.com/q191201771/lal/pkg/sdp"
+	"github.com/q191201771/naza/pkg/nazalog"
 	"pgregory.net/rapid"
 
 	"verif/drv/pbt"
@@ -585,6 +601,27 @@ func lbl(format string, a ...interface{}) string { return fmt.Sprintf(format, a.
 // client session that failed before "play" succeeded (with whatever message buffer a misaligned chunk stream made it
 // allocate, up to 16 MiB) until the pull timeout expires, so fast cases pile such sessions up.  Waiting for them to
 // expire is harness pacing, not a verdict.
+// fatalIsPanic: lal's Log.Fatalf ends the process with os.Exit(1) — no crash dump, and with the log silenced no line at
+// all, so neither the harness nor the driver could say which peer input did it.  The package loggers are wrapped: Fatal*
+// panics with the message instead, at the same place, so that the termination is attributed like any other one
+// (panic@<lal function> in a harness-owned goroutine, process-death@<lal function> in one of lal's own).
+type fatalIsPanic struct{ nazalog.Logger }
+
+const fatalMsg = "lal called Log.Fatal*, which ends the process with os.Exit(1): "
+
+func (l fatalIsPanic) Fatalf(format string, v ...interface{}) {
+	panic(fatalMsg + fmt.Sprintf(format, v...))
+}
+func (l fatalIsPanic) Fatal(v ...interface{})   { panic(fatalMsg + fmt.Sprint(v...)) }
+func (l fatalIsPanic) Fatalln(v ...interface{}) { panic(fatalMsg + fmt.Sprint(v...)) }
+
+func init() {
+	for _, lg := range []*nazalog.Logger{&aac.Log, &avc.Log, &base.Log, &gb28181.Log, &hevc.Log, &hls.Log, &httpflv.Log, &httpts.Log,
+		&logic.Log, &mpegts.Log, &remux.Log, &rtmp.Log, &rtprtcp.Log, &rtsp.Log, &sdp.Log} {
+		*lg = fatalIsPanic{*lg}
+	}
+}
+
 func init() {
 	// the test binary runs under an address-space limit (check.json mem_limit_mb) so that a peer-controlled
 	// multi-gigabyte allocation is a deterministic fatal error; keep the collector well below that limit, otherwise
